@@ -976,6 +976,17 @@ func (p *Parser) parseBlockStmt() *ast.BlockStmt {
 	stmt := &ast.BlockStmt{Token: p.curToken}
 
 	for !p.curTokenIs(token.END) {
+		if p.curTokenIs(token.EOF) || p.curTokenIs(token.ILLEGAL) {
+			p.newError(
+				p.curToken.ErrorLine(),
+				fail.ErrWrongNextToken,
+				token.String(token.END),
+				token.String(p.curToken.Type),
+			)
+
+			return stmt
+		}
+
 		block := p.parseStatement()
 
 		if block != nil {
